@@ -13,6 +13,7 @@ import (
 	"sort"
 	"strconv"
 	"strings"
+	"sync"
 
 	"github.com/titpetric/vuego"
 )
@@ -34,6 +35,7 @@ type fnSpec struct {
 	ctx      bool     // Go function takes a leading *vuego.VueContext
 	retErr   bool     // Go function returns (T, error)
 	builtin  bool     // documented built-in (not registered by the check)
+	sig      bool     // member of the generated signature product (sig_test.go)
 	shared   bool     // built-in that conditions/operators can also call today (see finding C13-func-in-condition)
 	impl     any      // the Go function registered with vuego (nil for built-ins)
 	call     func(in []any) (any, error)
@@ -389,6 +391,9 @@ func init() {
 		fnNames = append(fnNames, k)
 	}
 	sort.Strings(fnNames)
+	// the signature product (sig_test.go) is generated by its own family and is not part of
+	// fnNames (random pipe stages, per-function error enumeration)
+	registerSignatures()
 }
 
 // jsonText marks a value as JSON text: compared by meaning (key order and spacing of the
@@ -397,11 +402,18 @@ type jsonText string
 
 // funcMap returns the registered functions for vuego.WithFuncs.
 func funcMap() vuego.FuncMap {
-	m := vuego.FuncMap{}
-	for n, f := range funcs {
-		if !f.builtin {
-			m[n] = f.impl
+	funcMapOnce.Do(func() {
+		funcMapAll = vuego.FuncMap{}
+		for n, f := range funcs {
+			if !f.builtin {
+				funcMapAll[n] = f.impl
+			}
 		}
-	}
-	return m
+	})
+	return funcMapAll // vuego copies the entries into its own map
 }
+
+var (
+	funcMapOnce sync.Once
+	funcMapAll  vuego.FuncMap
+)
